@@ -58,8 +58,8 @@ def bounds(tier):
         return dict(common, pool=M.TAGS[:6], max_subset=3, cstar_variants=[0, 1],
                     configs="3 NumSys x rref_equil x rref_preserv with new_eq_params=True (12) + new_eq_params=False with (rref_equil,rref_preserv) in {(F,F),(T,T)} (6)",
                     direct_zero="new_eq_params=True: full extents for c*#0, core extents for c*#1; new_eq_params=False: core4",
-                    direct_perturbations="xi=(1,..,1)/1000, c*#0", symbolic_zero="full extents, every c*, every config",
-                    symbolic_perturbations="core4 extents, every c*, every config")
+                    direct_perturbations="xi=(1,..,1)/1000, c*#0, new_eq_params=True", symbolic_zero="full extents, every c*, every config",
+                    symbolic_perturbations="core4 extents for c*#0, xi=(1,..,1)/1000 for c*#1, every config")
     return dict(common, pool=M.TAGS[:8], max_subset=4, cstar_variants=[0, 1, 2],
                 configs="3 NumSys x rref_equil x rref_preserv x new_eq_params = 24",
                 direct_zero="full extents, every c*, every config", direct_perturbations="core extents, every c*",
@@ -120,9 +120,10 @@ def plan(tier, nr, variant, cfg, scales):
             dz = full if variant == 0 else core
         else:
             dz = core4
-        dp = [((1,) * nr, "milli")] if variant == 0 else []
-        return dict(direct_zero=set(dz), direct_pert=set(dp), sym_zero=set(full), sym_pert=set(core4))
-    return dict(direct_zero=set(full), direct_pert=set(core), sym_zero=set(full), sym_pert=set(full))
+        dp = [((1,) * nr, "milli")] if variant == 0 and cfg[3] else []
+        sp_ = core4 if variant == 0 else [((1,) * nr, "milli")]
+        return dict(direct_zero=set(dz), direct_pert=set(dp), sym_zero=set(full), sym_pert=set(sp_), stored_k_modes=("direct", "symbolic") if variant == 0 else ("direct",))
+    return dict(direct_zero=set(full), direct_pert=set(core), sym_zero=set(full), sym_pert=set(full), stored_k_modes=("direct", "symbolic"))
 
 
 # --------------------------------------------------------------------------------------------- helpers
@@ -507,7 +508,7 @@ def run_chunk(chunk, tier):
                 if cfg[3]:
                     continue
                 for tr in TRANSFORMS[cfg[0]]:
-                    for mode in b["modes"]:
+                    for mode in plan(tier, nr, variant, cfg, b["scales"])["stored_k_modes"]:
                         res.symbols["pert:%s:stored-K-inverted" % mode] += 1
                         check_one(res, ctx2, cfg, tr, (0,) * nr, "milli", None, mode)
         if variant == 0:
